@@ -1,5 +1,110 @@
-(* C11 - placeholder while the correspondence is brought up *)
-From LibTw2 Require Import Base.Res Model.Snap.
-Example C11_nonvacuous : crc raw_empty = 0.
-Proof. reflexivity. Qed.
+(* C11 - snapshot and delta parsers are total and enforce their limits.
+   Only the property theorems (about Model/Snap.v), closed by lemmas of Proofs/Snap*.v.
+   `fine r` : r is a value or an error (no Panic, no OutOfFuel).
+   snap_accepted / delta_accepted : the values obtainable from the readers (of u8 bytes / i32
+   words shorter than 2^31 items) and from read_with_delta / Delta::create on accepted values. *)
+From LibTw2 Require Import Base.Res Model.Varint Model.Packer Model.Snap
+  Proofs.SnapBase Proofs.SnapRep Proofs.SnapDelta Proofs.SnapApply Proofs.SnapTotal Proofs.SnapTotal2
+  Proofs.SnapSer Proofs.SnapReg Proofs.SnapObs Proofs.SnapBuilder Proofs.SnapC11.
+From Coq Require Import ZArith List Lia.
+Import ListNotations.
+Open Scope Z_scope.
+
+(* no reader panics or runs out of fuel on any input; applying any accepted delta to any accepted
+   snapshot ends with a value or an error *)
+Theorem C11_total :
+  (forall ints, forallb is_i32 ints = true ->
+     fine (fst (raw_read_from_ints ints)) /\ fine (fst (snap_read_from_ints ints)))
+  /\ (forall bs, bytes_ok bs = true ->
+     fine (fst (raw_read_bytes bs)) /\ fine (fst (snap_read_bytes bs)))
+  /\ (forall sz ints, forallb is_i32 ints = true -> Z.of_nat (length ints) < i32_max ->
+     fine (fst (delta_read_from_ints sz ints)))
+  /\ (forall sz bs, bytes_ok bs = true -> Z.of_nat (length bs) < i32_max ->
+     fine (fst (delta_read_bytes sz bs)))
+  /\ (forall S d, snap_accepted S -> delta_accepted d ->
+     fine (fst (raw_read_with_delta (sn_raw S) d)) /\ fine (fst (snap_read_with_delta S d))).
+Proof.
+  split; [|split; [|split; [|split]]].
+  - intros ints Hi. split; [|apply (wpost_fine _ _ (snap_read_from_ints_good ints Hi))].
+    pose proof (read_from_ints_good ints Hi) as H. destruct (raw_read_from_ints ints) as [[R| | |] ws]; cbn; auto.
+  - intros bs Hb. split; [|apply (wpost_fine _ _ (snap_read_bytes_good bs Hb))].
+    pose proof (read_bytes_good bs Hb) as H. destruct (raw_read_bytes bs) as [[R| | |] ws]; cbn; auto.
+  - intros sz ints Hi Hn. apply (wpost_fine _ _ (delta_read_from_ints_post sz ints Hi Hn)).
+  - intros sz bs Hb Hn. apply (wpost_fine _ _ (delta_read_bytes_post sz bs Hb Hn)).
+  - intros S d HS Hd. destruct (proj2 accepted_good S HS) as [G _]. pose proof (proj1 accepted_good d Hd) as D.
+    split; [apply (wpost_fine _ _ (read_with_delta_good _ d (sg_raw _ G) D))|apply (wpost_fine _ _ (snap_read_with_delta_good S d G D))].
+Qed.
+
+(* every accepted snapshot holds at most 1024 items and serialises to at most 64 KiB *)
+Theorem C11_limits : forall S, snap_accepted S ->
+  Z.of_nat (length (rs_offs (sn_raw S))) <= 1024
+  /\ ser_size (Z.of_nat (length (rs_offs (sn_raw S)))) (Z.of_nat (length (rs_buf (sn_raw S)))) <= 65536
+  /\ exists l, snap_ints (sn_raw S) = Ok l /\ 4 * Z.of_nat (length l) <= 65536
+       /\ forall cap, (length l <= cap)%nat -> raw_write_to_ints (sn_raw S) cap = Ok l.
+Proof.
+  intros S HS. destruct (proj2 accepted_good S HS) as [G C]. pose proof (sg_raw _ G) as GR.
+  split; [apply (g_n _ GR)|]. split; [apply (g_sz _ GR)|].
+  destruct (snap_roundtrip S GR C) as (l & _ & _ & _ & El & _ & Hl & _). exists l. split; [exact El|]. split; [exact Hl|].
+  intros cap Hc. unfold raw_write_to_ints. rewrite El. unfold MAX_SNAPSHOT_SIZE in *.
+  replace (cap <? length l)%nat with false by (symmetry; apply Nat.ltb_ge; lia).
+  replace (65536 <? 4 * Z.of_nat (length l)) with false by (symmetry; apply Z.ltb_ge; lia). reflexivity.
+Qed.
+
+(* an accepted snapshot can be written and read back to a snapshot that cannot be told apart,
+   and every other operation runs on it: enumerate, look up (type ids in their documented
+   range), checksum, recycle + add, diff against any accepted snapshot (K09 aside) *)
+Theorem C11_reusable : forall S, snap_accepted S ->
+  (exists l bs S' ws, snap_ints (sn_raw S) = Ok l /\ ints_to_bytes l = Ok bs
+      /\ snap_read_from_ints l = (Ok S', ws) /\ snap_read_bytes bs = (Ok S', ws)
+      /\ (forall E, @snap_items E S' = @snap_items E S)
+      /\ (forall E t id, @snap_item E S' t id = @snap_item E S t id)
+      /\ crc (sn_raw S') = crc (sn_raw S) /\ snap_accepted S')
+  /\ (exists r, @snap_items unit S = Ok r)
+  /\ (forall t id, (forall o, t = Ordinal o -> 0 < o < OFFSET_EXTENDED_TYPE_ID) -> exists r, @snap_item unit S t id = Ok r)
+  /\ (exists b, snap_recycle S = Ok b
+        /\ forall t id data, (forall o, t = Ordinal o -> 0 < o < OFFSET_EXTENDED_TYPE_ID) ->
+             fine (snd (builder_add b t id data)))
+  /\ (forall S2, snap_accepted S2 ->
+        (k09 (sn_raw S) (sn_raw S2) = false ->
+           exists d, create_raw (sn_raw S) (sn_raw S2) = Ok d /\ delta_accepted d
+                     /\ fine (fst (snap_read_with_delta S d)))
+        /\ (k09 (sn_raw S) (sn_raw S2) = true -> exists s, create_raw (sn_raw S) (sn_raw S2) = Panic s)).
+Proof.
+  intros S HS. destruct (proj2 accepted_good S HS) as [G C]. pose proof (sg_raw _ G) as GR.
+  split; [|split; [|split; [|split]]].
+  - destruct (snap_roundtrip S GR C) as (l & bs & S' & ws & E1 & E2 & Hlen & E3 & E4 & _ & _ & O1 & O2 & O3 & _).
+    exists l, bs, S', ws. repeat split; try assumption.
+    destruct (g_rep _ GR) as [ch R].
+    destruct (snap_wire_roundtrip (sn_raw S) ch GR R) as (l' & _ & _ & El' & Hi & _). rewrite E1 in El'. injection El' as <-.
+    apply (sacc_ints l ws S' Hi E3).
+  - apply snap_items_fine, G.
+  - intros t id Ho. apply snap_item_fine; assumption.
+  - destruct (snap_recycle_fine S G) as (b & Eb & Hn & _). exists b. split; [exact Eb|].
+    intros t id data Ho. apply builder_add_fine; [exact Ho|]. unfold OFFSET_EXTENDED_TYPE_ID. lia.
+  - intros S2 HS2. destruct (proj2 accepted_good S2 HS2) as [G2 _].
+    destruct (create_fine_or_k09 _ _ GR (sg_raw _ G2)) as [H1 H2]. split; [|exact H2].
+    intros Hk. destruct (H1 Hk) as (d & Ed & D). exists d. split; [exact Ed|]. split; [apply (dacc_create S S2 d HS HS2 Ed)|].
+    apply (wpost_fine _ _ (snap_read_with_delta_good S d G D)).
+Qed.
+
+(* the hypotheses are met by concrete values: a snapshot with a UUID registry item, a type beyond
+   0x4000, a delta, and a rejected input for each of the repaired defects *)
+Definition exInts : list Z := [40; 3; 0; 20; 32; 16384; 1; 2; 3; 4; 327681; 9; 9; 1073741831; 7].
+Definition exDelta : list Z := [0; 1; 0; 5; 1; 3; 1; 2; 3].
+
+Example C11_nonvacuous :
+  forallb is_i32 exInts = true
+  /\ (exists S, snap_read_from_ints exInts = (Ok S, []) /\ sn_ext S = [(79228162551157825753847955460, 16384)])
+  /\ (exists d, delta_read_from_ints (fun _ => None) exDelta = (Ok d, []) /\ d_del d = []
+        /\ match snap_read_from_ints exInts with
+           | (Ok X, _) => fst (snap_read_with_delta X d) = Err DeltaDifferingSizes
+           | _ => False
+           end)
+  /\ fst (snap_read_from_ints [20; 1; 0; 5; 1; 2; 3; 4]) = Err InvalidUuidType
+  /\ fst (raw_read_from_ints [8; 2; 0; 4; 65537; 65537]) = Err DuplicateKey.
+Proof. vm_compute. repeat split; eexists; repeat split. Qed.
+
+Print Assumptions C11_total.
+Print Assumptions C11_limits.
+Print Assumptions C11_reusable.
 Print Assumptions C11_nonvacuous.
